@@ -210,7 +210,7 @@ pub fn run(cfg: &Cfg, rep: &mut Rep) {
             }
         }
     }
-    let nrand = cfg.budget(600_000);
+    let nrand = cfg.budget(1_500_000);
     for k in 0..nrand {
         let si = r.below(9) as usize;
         let s = SCALES[si];
